@@ -204,3 +204,18 @@ def rand_text(rng: random.Random, n: int, unicode_: bool = False) -> str:
         alphabet += "äöüéèßØπλЖ日本"
     s = "".join(rng.choice(alphabet) for _ in range(n))
     return s
+
+
+def shard_by_pgn(defs, i, n):
+    """Definitions of shard i of n, with all definitions of one PGN number kept together (sibling definitions of a
+    proprietary PGN must meet inside one process / on one long-lived codec instance)."""
+    order = sorted({d.pgn for d in defs})
+    mine = {p for k, p in enumerate(order) if k % n == i}
+    return [d for d in defs if d.pgn in mine]
+
+
+def sibling_groups(defs):
+    by = {}
+    for d in defs:
+        by.setdefault(d.pgn, []).append(d)
+    return [ds for ds in by.values() if len(ds) > 1]
